@@ -1,4 +1,4 @@
-CONSTANTS NTests = 2 Deviations = {"TracebackKeepsPrint"} PreChoices = {TRUE, FALSE}
+CONSTANTS NTests = 2 Deviations = {"TracebackKeepsPrint"} PreChoices = {"none", "both", "sys"}
 SPECIFICATION Spec
 INVARIANT Restored
 INVARIANT HooksRestored
